@@ -61,11 +61,11 @@ func NewReverseAnchoredSearcher(forwardNFA *nfa.NFA, config lazy.Config) (*Rever
 	}
 
 	// Create PikeVM for fallback (when DFA cache is full)
-	pikevm := nfa.NewPikeVM(reverseNFA)
+	pikevm := nfa.NewSharedPikeVM(reverseNFA)
 
 	// Create forward PikeVM for empty string matching
 	// Reverse NFA has issues with empty strings and certain alternations
-	forwardPikevm := nfa.NewPikeVM(forwardNFA)
+	forwardPikevm := nfa.NewSharedPikeVM(forwardNFA)
 
 	s := &ReverseAnchoredSearcher{
 		reverseNFA:    reverseNFA,
